@@ -821,7 +821,8 @@ def _r3(ctx):
     try:
         import copy
         from ..normalize import coalesce_copies
-        fn = coalesce_copies(copy.deepcopy(fn))
+        from .c20 import _untuple
+        fn = coalesce_copies(_untuple(copy.deepcopy(fn)))
     except (RecursionError, ImportError):
         pass
     fl = Flow(fn, FILE)
